@@ -247,8 +247,10 @@ def run(ctx, anchors=None):
         nonconst = [n for n in writes if not (n["k"] == "assign" and n["rhs"].get("k") == "bool")]
         set_t = [n for n in writes if n["k"] == "assign" and n["rhs"].get("k") == "bool" and n["rhs"]["v"]]
         set_f = [n for n in writes if n["k"] == "assign" and n["rhs"].get("k") == "bool" and not n["rhs"]["v"]]
-        pos = [n for (neg, n) in refusals[d_] if not neg]
-        negs = [n for (neg, n) in refusals[d_] if neg]
+        in_loop = lambda n_: any(a_.get("k") in ("while", "for", "do", "forrange") for a_ in pf.ancestors(n_))
+        # a refusal keyed on the flag after the loop is the end-of-input test (a signature without its key), not a separator case
+        pos = [n for (neg, n) in refusals[d_] if not neg and in_loop(n)]
+        negs = [n for (neg, n) in refusals[d_] if neg and in_loop(n)]
         if nonconst:
             msgs.append("the flag is written from a non-constant")
         if not set_t or not all(any(pcfg.dominates(r_["cond"], n) for r_ in pos) and 58 in separators(n) for n in set_t):
